@@ -442,7 +442,7 @@ func (g *genCtx) policy() PolicySpec {
 		p.Kind, p.P = "last", 0.1
 	default:
 		p.Kind = "starve"
-		p.Starve = Pick(r, []string{"w: ", "pe: ", "px: ", "/cont", "r: ", "api: ", "/s0", "UpdateSequence", "UpdatePlan"})
+		p.Starve = Pick(r, []string{"w: ", "pe: ", "px: ", "/cont", "r: ", "api: ", "/s0", "UpdateSequence", "UpdatePlan", "y: ", "y: ", "wa: "})
 	}
 	switch x := r.Intn(10); {
 	case x < 6:
@@ -563,6 +563,7 @@ func GenExec(seed uint64, profile string, runIdx int) *RunSpec {
 			np = 1 + r.Intn(3)
 		}
 	}
+	edge := false
 	for i := 0; i < np; i++ {
 		p := g.plan()
 		if (g.class == clsContFailAtK || g.class == clsLongSeqCont) && p.Cont == nil && p.Blocks[0].Cont == nil {
@@ -581,11 +582,37 @@ func GenExec(seed uint64, profile string, runIdx int) *RunSpec {
 			g.widen(&p)
 		}
 		g.applyScripts(&p)
+		if profile == "C07" && !g.consts && r.Bool(0.12) {
+			// Edge shaping: the k-th run of block 0's continuous check fails at the very instant
+			// the block's only sequence ends, so that the hand-over of the failure races with
+			// BlockEnd's cancel-and-drain (the order is then the scheduler's).
+			edge = true
+			b := &p.Blocks[0]
+			b.Bypass, b.Pre, b.Post, b.Deferred = nil, nil, nil, nil
+			b.EntranceMs = 0
+			c, d, k := Pick(r, []int64{137, 1137}), Pick(r, []int64{1000, 3000}), 2+r.Intn(3)
+			chk := ActionSpec{Timeout: 60, Default: Outcome{Kind: OK, LatMs: c}}
+			for i := 1; i < k; i++ {
+				chk.Script = append(chk.Script, Outcome{Kind: OK, LatMs: c})
+			}
+			chk.Script = append(chk.Script, Outcome{Kind: Permanent, LatMs: c})
+			b.Cont = &ChecksSpec{DelayMs: d, Actions: []ActionSpec{chk}}
+			b.Seqs = []SeqSpec{{Actions: []ActionSpec{{Timeout: 60, Default: Outcome{Kind: OK, LatMs: int64(k-1) * (d + c)}}}}}
+			b.Concurrency, b.Tolerated = 1, 0
+			p.Bypass, p.Pre = nil, nil
+		}
 		spec.Plans = append(spec.Plans, p)
 	}
 	spec.Policy = g.policy()
 	if g.consts {
 		spec.Policy.DelayP, spec.Policy.ReplyP = 0, 0
+	}
+	if edge {
+		spec.Policy.DelayP, spec.Policy.ReplyP, spec.Policy.WriteLatUs = 0, 0, 0
+		spec.Policy.Yields = true
+		if r.Bool(0.5) {
+			spec.Policy.Kind, spec.Policy.Starve = "starve", "y: " // engine-internal steps held back as long as possible
+		}
 	}
 	spec.GraceMs = maxGrace(spec.Plans)
 	spec.Clients = g.clients(spec, profile)
